@@ -14,3 +14,7 @@ G = ['parse_ignored line path (pc.str == data[old idx .. new idx), no CR/LF insi
      'no later pass edits or deletes CT_IGNORED chunks or inserts chunks between them (the two defects quoted in the property live there and are not in this kernel)',
      'write_char encodes each code point exactly (C09)']
 MACRO_HEADERS = ['output_macros.h', 'tokenizer_macros.h']
+
+sys.path.insert(0, os.path.join(os.path.dirname(os.path.abspath(__file__)), '..', '..', 'tools'))
+import replay_lib  # noqa: E402
+REPLAY = replay_lib.make_replay(replay_lib.scenario_ignored_region)
